@@ -147,14 +147,17 @@ func c08Frags(r *plan.Rng) []c08Frag {
 			"v1 := smv.by + bytes(ins)",
 			"v2 := string(smv.by[1:4]) + string(smv.by[inp % 5])",
 			"v3 := smv.tm + inp",
-			"v4 := int(smv.tm) - inp",
+			"v4 := (smv.tm - inp) < smv.tm",
 			"v5 := is_error(smv.er) ? smv.er.value + ins : \"\"",
 			"v6 := smv.mp.a + inp + len(smv.mp.l) + smv.mp.l[1]",
 			"v7 := smv.ch + inp % 3",
 			"v8 := smv.f * float(inp) + smv.k",
 			"v9 := format(\"%v|%s|%d\", smv.mp.l, smv.s, smv.k)",
 			"v10 := copy(smv.mp)",
-			"v10.a = inp"}},
+			"v10.a = inp",
+			"v11 := smv.b5 + bytes(ins[0:1])",
+			"v12 := smv.b5 + bytes(\"Z\")",
+			"v13 := string(v11) + string(v12) + string(smv.b5)"}},
 		{name: "closuresNoFree", lines: []string{
 			"mk0 := func() {",
 			"	return func(b) {",
@@ -265,7 +268,7 @@ var c08ModSrc = map[string]string{
 		"}",
 		"label := func(s) {",
 		"	pre := \"[λ]\"",
-		"	return pre[1] + s + pre[0:1]",
+		"	return string(pre[1]) + s + pre[0:1]",
 		"}",
 		"fail := func(x) {",
 		"	t := [1, 2]",
@@ -606,4 +609,37 @@ func genC08Single(r *plan.Rng) *plan.Plan {
 	}
 	p.Tape = plan.GenTape(r.Fork(3), 80, []int{1, 3, 10, 40, 200}[r.Intn(5)])
 	return p
+}
+
+// C08FragmentPlans returns, for every fragment that is meant to run to its end,
+// a plan whose program is that fragment alone (generator self-test: a fragment
+// that fails half-way silently hides its remaining lines from every episode).
+func C08FragmentPlans() map[string]*plan.Plan {
+	out := map[string]*plan.Plan{}
+	r := plan.NewRng(1)
+	all := append(append([]c08Frag{}, c08Frags(r)...), c08PoolFrags...)
+	for _, f := range all {
+		if strings.HasPrefix(f.name, "fail") {
+			continue
+		}
+		p := &plan.Plan{Shape: "clones", Prop: "C08"}
+		c08Modules(p, append([]string{}, f.mods...))
+		for _, m := range f.mods {
+			// modules imported by source modules
+			if m == "othermod" && !hasMod(f.mods, "mymod") {
+				c08Modules(p, []string{"mymod"})
+			}
+		}
+		inputs := append(c08Inputs(r, 0),
+			plan.Input{Name: "stz", Val: plan.Value{T: "obj:stringer", I: 3}},
+			plan.Input{Name: "stz2", Val: plan.Value{T: "obj:stringer", I: 4}})
+		mods := append([]string{}, f.mods...)
+		if hasMod(mods, "othermod") && !hasMod(mods, "mymod") {
+			mods = append(mods, "mymod")
+		}
+		p.Scripts = []plan.Script{{Src: lines(f.lines...), Modules: mods, Inputs: inputs}}
+		p.Slots = 2
+		out[f.name] = p
+	}
+	return out
 }
